@@ -175,10 +175,11 @@ def get (st : St V) (id : Nat) : St V × Rd V :=
 /-- `let id = self.refs.len(); self.refs.push(XRef::Promised)` -/
 def alloc (st : St V) : St V × Nat := ({ st with refs := st.refs ++ [.promised] }, st.refs.length)
 
-/-- `Updater::create` for a value whose `to_primitive` creates nothing itself -/
+/-- `Updater::create` for a value whose `to_primitive` creates nothing itself (repaired: the object
+    cache is dropped, a failed lookup of the new number may be cached) -/
 def create (st : St V) (v : V) : St V × Nat :=
   let (st1, id) := alloc st
-  ({ st1 with changes := chInsert st1.changes id (v, 0) }, id)
+  ({ st1 with changes := chInsert st1.changes id (v, 0), cache := [] }, id)
 
 /-- `Updater::promise` -/
 def promise (st : St V) : St V × Nat := alloc st
